@@ -49,10 +49,11 @@ def run(ctx):
     # ... and for the enumerant / bit-mask operands: every typed decoder request returns exactly the word it read (all 2^32 words), so
     # an accepted word is never altered on the way into the module (C11's MIR leg)
     import c11
-    ctx.extra["typed_requests_decided_from_mir"] = c11.typed_requests_mir(ctx)
+    import common as _common
+    ctx.extra["typed_requests_decided_from_mir"] = _common.composed(ctx, "C11-typed-requests", lambda: c11.typed_requests_mir(ctx))
     # lemma 2 says WHERE-ever an instruction is filed it is filed once, unchanged; that an input already in layout order comes back
     # in the same order needs the container to be the one the layout assigns to the opcode: C05's reference automaton (all opcodes)
-    c05.run(ctx)
+    _common.composed(ctx, "C05-loader-automaton", lambda: c05.run(ctx))
     P = tables.parse_operand_arms()
     c02.native_roundtrip(ctx, S, rp, P)
     c06.native_module_roundtrip(ctx, rp, loaded_only=True)
